@@ -174,6 +174,12 @@ fn run(eng: &Engine, a: &Args) {
         let scripts: Vec<Vec<u8>> = (0..7).map(|i| vec![0x52 + i as u8]).collect();
         fixed.push(Case { chain: vpmodel::spec::chain_from_scripts(vpmodel::chain::ALL_COINS[(k * 3) % 8], &scripts, vals, 1, 2, 0, 1_500_000_000), start_sel: None, end_sel: None });
     }
+    // ties for both maxima INSIDE one block and across blocks (the first one counts): transactions 0 and 2 of every block
+    // have the same size and the same value, larger than the others; block 2 repeats the shapes of block 1
+    for (k, coin) in [vpmodel::chain::Coin::Bitcoin, vpmodel::chain::Coin::Dogecoin].iter().enumerate() {
+        let scripts: Vec<Vec<u8>> = (0..12usize).map(|i| { let len = [40usize, 3, 40, 5][i % 4]; let mut s = vec![0x51 + (i % 4) as u8]; s.extend(std::iter::repeat((i / 4) as u8 + 0x60 + k as u8).take(len)); s }).collect();
+        fixed.push(Case { chain: vpmodel::spec::chain_from_scripts(*coin, &scripts, &[9_000_000, 1, 9_000_000, 2], 1, 4, 0, 1_500_000_000), start_sel: None, end_sel: None });
+    }
     eng.enumerate("fixed-defect-regressions", fixed, check);
     // sample counts beyond 2^16: (1) 66 300 blocks whose last 700 are several times bigger and twelve times slower than
     // the rest (a mean that is not sum / count shows in the block-size and block-interval figures), whole and as a
